@@ -1,4 +1,6 @@
+mod api;
 mod engine;
+mod misc;
 mod pat;
 mod session;
 mod wire;
@@ -32,6 +34,10 @@ fn main() {
     match args[1].as_str() {
         "engine" => engine::run(&cfg),
         "inject" => engine::run_inject(&cfg),
+        "api" => api::run(&cfg, &arg(&args, "--mode", "c08")),
+        "c12" => misc::run_c12(&cfg),
+        "c17" => misc::run_c17(&cfg),
+        "c20" => misc::run_c20(&cfg),
         "list" => {
             for p in engine::patterns(&cfg.space, &cfg.tier, cfg.seed) {
                 println!("{}", p);
